@@ -1,5 +1,6 @@
 import Driver.J
 import CanVerif.Model.DbcLines
+import Driver.C05
 open Lean CanVerif
 
 namespace D20
@@ -43,6 +44,10 @@ def handle (op : String) (c i : Json) : Except String (Json × String) := do
     pure (m, if raised then "fail: loading a truncated file raised"
              else if !kept then "fail: a frame or signal defined completely before the cut is missing or placed/scaled differently"
              else "ok")
+  | "whole" =>
+    -- the file with its malformed lines / cut at a byte, read by the model of the whole reader (Model/DbcFile.lean) and by dbc.load:
+    -- i = {"lines", "snap": the matrix the real reader has built when its line loop ends} | {"skipped": reason}
+    D05.handle "whole" c i
   | "kind" =>
     let l ← J.str c
     pure (Json.str (kindName (classify l.toList)), "ok")
